@@ -378,24 +378,42 @@ def _r1_r2_kernels(ctx):
             ref = "bf >= fs"
             m = {"bf": ("absdiff", frozenset([IN, SL(-1)])), "fs": ("absdiff", frozenset([SL(-1), SL(-2)]))}
             _cmp_pred(ctx, k.fi, br, closing[0], atom, ref, m, "three-point closing guard")
-            # front guard: start index >= max(lowest_front, highest_front)
-            if len(front) != 1:
-                ctx.violated(k.fi, br, "three-point guard lacks the front-extreme conjunct", text="front guard", rule="R-C02-1")
-            else:
-                f = front[0]
-                ok = isinstance(f, ast.Compare) and len(f.ops) == 1 and isinstance(f.ops[0], ast.GtE)
-                if ok:
-                    try:
-                        la = atom(f.left)
-                        ra = atom(f.comparators[0])
-                        ok = la == ("idx", SL(-2)) and ra[0] == "max" and len(ra[1]) == 2
-                    except AnalysisError:
-                        ok = False
-                if ok:
-                    ctx.holds(k.fi, br, "front guard: start index >= max of the two front extremes", {"guard": norm_text(f)}, rule="R-C02-1")
+            # front guard: start index >= both front extremes, written with max(...) or as two comparisons
+            bounded = set()
+            shape_ok = bool(front)
+            for f in front:
+                fo = f
+                if isinstance(f, ast.Compare) and len(f.ops) == 1 and isinstance(f.ops[0], (ast.LtE,)):
+                    fo = ast.Compare(left=f.comparators[0], ops=[ast.GtE()], comparators=[f.left])      # a <= s  ->  s >= a
+                if not (isinstance(fo, ast.Compare) and len(fo.ops) == 1 and isinstance(fo.ops[0], ast.GtE)):
+                    shape_ok = False
+                    continue
+                try:
+                    la = atom(fo.left)
+                except AnalysisError:
+                    la = None
+                if la != ("idx", SL(-2)):
+                    shape_ok = False
+                    continue
+                r_ = fo.comparators[0]
+                if isinstance(r_, ast.Call) and call_name(r_) in ("_max", "max") and len(r_.args) == 2 and \
+                        all(isinstance(a_, ast.Name) for a_ in r_.args):
+                    bounded |= {a_.id for a_ in r_.args}
+                elif isinstance(r_, ast.Name):
+                    bounded.add(r_.id)
                 else:
-                    ctx.violated(k.fi, br, "front guard is %s; it must be start >= max(lowest_front, highest_front)" %
-                                 norm_text(f), text="front guard %s" % norm_text(f), rule="R-C02-1")
+                    shape_ok = False
+            if not front:
+                ctx.violated(k.fi, br, "three-point guard lacks the front-extreme conjunct", text="front guard", rule="R-C02-1")
+            elif shape_ok and len(bounded) == 2:
+                ctx.holds(k.fi, br, "front guard: start index >= both front extremes (%s)" % ", ".join(sorted(bounded)),
+                          {"guard": " and ".join(norm_text(f) for f in front)}, rule="R-C02-1")
+            elif shape_ok and len(bounded) == 1:
+                ctx.violated(k.fi, br, "front guard bounds the start index by %s only; it must be at or behind BOTH front extremes" %
+                             sorted(bounded)[0], text="front guard one-sided", rule="R-C02-1")
+            else:
+                ctx.violated(k.fi, br, "front guard is %s; it must be start >= max(lowest_front, highest_front)" %
+                             " and ".join(norm_text(f) for f in front), text="front guard %s" % norm_text(front[0]), rule="R-C02-1")
         # ---- R-C02-2 sequential evaluation of the closing branch
         delta = 0
         rec = {}
